@@ -20,7 +20,7 @@ META = {
 RULE = ("case = document whose entry keys, string keys and field keys come from small pools; all assignments for <= n templated items "
         "(exhaustive) + random grammar derivations; non-trivial = at least one key collision of either kind; distinct = distinct text")
 ASSUMPTIONS = ["entries and strings have separate key spaces", "an entry with repeated field keys does not register its key (statement)"]
-MIN = {"structure_split": (10000, 200000), "structure_parse_string": (10000, 200000), "dupkey_wrapper": (5000, 100000), "dupfield_wrapper": (3000, 50000), "structure_parse_string_copy_stack": (3000, 60000), "structure_split_into_existing_library": (3000, 60000), "structure_parse_string_field_middlewares": (3000, 60000)}
+MIN = {"structure_one_middleware_stack_then_into_existing": (3000, 60000), "structure_split": (10000, 200000), "structure_parse_string": (10000, 200000), "dupkey_wrapper": (5000, 100000), "dupfield_wrapper": (3000, 50000), "structure_parse_string_copy_stack": (3000, 60000), "structure_split_into_existing_library": (3000, 60000), "structure_parse_string_field_middlewares": (3000, 60000)}
 
 FIELDSETS = [[], ["t"], ["t", "u"], ["t", "t"], ["t", "u", "t"], ["t", "T"], ["u", "u", "u"]]
 KEYS = ["a", "b"]
@@ -48,7 +48,8 @@ def render(combo):
     parts = []
     for n, (kind, key, fs) in enumerate(combo):
         if kind == "e":
-            fields = ", ".join("%s = {v%d_%d}" % (f, n, j) for j, f in enumerate(fs))
+            # every third value is a bare reference to one of the (possibly defined, possibly repeated) @string keys
+            fields = ", ".join("%s = %s" % (f, KEYS[(n + j) % len(KEYS)] if (n + j) % 3 == 0 else "{v%d_%d}" % (n, j)) for j, f in enumerate(fs))
             parts.append("@article{%s%s}" % (key, (", " + fields) if fs else ","))
         else:
             parts.append("@string{%s = {s%d}}" % (key, n))
@@ -190,6 +191,28 @@ def into_existing(text, cut):
     return sp.escape(run)
 
 
+def stack_then_into_existing(text, cut, n):
+    """The first piece is parsed with a stack that consists of ONE shipped middleware (so that the library it returns is the
+    one that middleware produced or worked on, seed C09-l), the second piece is then parsed into that library."""
+    import bibtexparser
+    from bibtexparser import middlewares as M
+    inplace = bool(n & 1)
+    ctors = [lambda: M.ResolveStringReferencesMiddleware(allow_inplace_modification=inplace), lambda: M.RemoveEnclosingMiddleware(allow_inplace_modification=inplace),
+             lambda: M.NormalizeFieldKeys(allow_inplace_modification=inplace), lambda: M.SortFieldsAlphabeticallyMiddleware(allow_inplace_modification=inplace),
+             lambda: M.MonthIntMiddleware(allow_inplace_modification=inplace),
+             lambda: M.LatexDecodingMiddleware(allow_inplace_modification=inplace), lambda: M.AddEnclosingMiddleware(reuse_previous_enclosing=True, enclose_integers=False, default_enclosing="{", allow_inplace_modification=inplace),
+             lambda: M.ResolveStringReferencesMiddleware(allow_inplace_modification=inplace), lambda: M.SeparateCoAuthors(allow_inplace_modification=inplace)]
+    mw = ctors[(n >> 1) % len(ctors)]()
+
+    def run():
+        lib = bibtexparser.parse_string(text[:cut], parse_stack=[mw])
+        if n & 4:
+            return bibtexparser.parse_string(text[cut:], parse_stack=[], library=lib)
+        from bibtexparser.splitter import Splitter
+        return Splitter(text[cut:]).split(library=lib)
+    return sp.escape(run), type(mw).__name__
+
+
 def parse_copy_stack(text):
     """parse_string with the default stack built in copy mode (allow_inplace_modification=False)."""
     import bibtexparser
@@ -229,6 +252,9 @@ def check(case, ctx):
     if ctx.cases % 3 == 2:
         n = ctx.cases // 3
         apis.append(("parse_string_field_middlewares", lambda t: parse_field_stack(t, n), False))
+        if len(items) >= 2:
+            cut2 = items[n % (len(items) - 1) + 1]["start"]
+            apis.append(("one_middleware_stack_then_into_existing", lambda t: stack_then_into_existing(t, cut2, n)[0], False))
     for api, fn, values in apis:
         st, lib = fn(text)
         ctx.ran()
@@ -236,7 +262,8 @@ def check(case, ctx):
         if st == "raise":
             out.append(Violation("raised", f"C09:raise:{lib.split(':')[0]}", dict(api=api, error=lib, text=text)))
             continue
-        v = compare(lib, items, ctx, api, values, copied=api.endswith("copy_stack") or api.endswith("field_middlewares"), loose_live=api.endswith("field_middlewares"))
+        v = compare(lib, items, ctx, api, values, copied=api.endswith("copy_stack") or api.endswith("field_middlewares") or api.startswith("one_middleware"),
+                    loose_live=api.endswith("field_middlewares") or api.startswith("one_middleware"))
         if v:
             v["detail"]["text"] = text
             v["detail"]["api"] = api
